@@ -48,7 +48,7 @@ package tex
 //@   modifies deref(i)
 //
 //@ func JsByte.FromString
-//@   requires i != nil
+//@   requires i != nil && ErrInvalidByteJs != nil
 //@   ensures #empty len(strBuf) == 0 ==> result == nil && len(deref(i)) == 0
 //@   ensures #exact result == nil && len(strBuf) > 0 ==> len(deref(i)) == splitcount(strBuf, "/") && forall j int :: { splitpart(strBuf, "/", j) } 0 <= j && j < len(deref(i)) ==> isint(splitpart(strBuf, "/", j)) && 0 <= ival(splitpart(strBuf, "/", j)) && ival(splitpart(strBuf, "/", j)) <= 255 && deref(i)[j] == uint8(ival(splitpart(strBuf, "/", j)))
 //@   modifies deref(i), region($alloc)
